@@ -424,8 +424,8 @@ def oracle(case, obs):
     cookies_set = [e["cookies"] for e in exps]
 
     def tag_for(i, kind):
-        rs = exps[i]["reason"]
-        if rs is not None and (b"\r" in rs or b"\n" in rs):
+        # one class for everything that follows from an unsanitised reason phrase anywhere on the connection
+        if any(e["reason"] is not None and (b"\r" in e["reason"] or b"\n" in e["reason"]) for e in exps):
             return "reason-phrase-crlf"
         return kind
 
@@ -674,7 +674,7 @@ def _request(rng, tier, last):
 
 def gen(rng, tier):
     cases = []
-    n = 600 if tier == "quick" else 12000
+    n = 450 if tier == "quick" else 12000
     for _ in range(n):
         k = rng.choice([1, 1, 1, 2, 2, 3])
         reqs = [_request(rng, tier, i == k - 1) for i in range(k)]
@@ -769,7 +769,7 @@ SPEC = Spec(
     coq_fn="run_show2",
     to_coq=to_coq, model_equal=model_equal,
     nontrivial=lambda c, o: len(o) > 40 and not o.endswith("#ERR"),
-    rule="600 (quick) / 12000 (thorough) random connections of 1-3 pipelined requests (HTTP/1.0|1.1 x GET|HEAD x "
+    rule="450 (quick) / 12000 (thorough) random connections of 1-3 pipelined requests (HTTP/1.0|1.1 x GET|HEAD x "
          "Connection: close), each a script of setResponseCode / setRawHeaders / setHeader / addRawHeader / removeHeader / "
          "addCookie / write calls with names and values over bytes 0-255 and str code points (incl. > 255, surrogates), "
          "CR/LF/CRLF placed in every sanitised position, body sizes at 0,1,15,16,17,255,256,257 (thorough also 4095-4097), "
@@ -787,3 +787,20 @@ SPEC = Spec(
                  "header values containing NUL or other control bytes are passed through unchanged (only CR/LF are sanitised); "
                  "the Spec parser accepts them, h11 does not - h11 is consulted only inside its own value grammar"],
 )
+
+
+def main(tier, seed, replay):
+    """standard protocol; model evaluation in smaller shards so that a quick run uses all workers"""
+    from harness import common
+
+    orig = common.coq_eval
+
+    def sharded(pid, header, fn, terms, shard=400, **kw):
+        per = max(40, min(400, -(-len(terms) // max(1, common.NPROC))))
+        return orig(pid, header, fn, terms, shard=per, **kw)
+
+    common.coq_eval = sharded
+    try:
+        return common.run_spec(SPEC, tier, seed, replay)
+    finally:
+        common.coq_eval = orig
